@@ -160,6 +160,9 @@ def run_one(seed, tier, explicit=None):
                                             'modified the in-memory resource',
                                             {'route': route, 'diff': mem_diff(snap, resource)})
                     _, exc = sim.call(go)
+                elif route in ('dl-url', 'dl-project'):
+                    sim._dl_spec = tgt['lexicons'][0]
+                    _, exc = sim.call(sim.raw_download, path, route)
                 else:
                     _, exc = sim.call(wn.add, path, progress_handler=SimHandler)
                 sim.W.end_op()
